@@ -243,7 +243,7 @@ def pack_dataclass(spec: ValueSpec) -> Optional[Expression]:
             # refer to themselves or to each other)
             outer.cls is spec.origin_type
             and outer.get_pack_method_name(
-                type_args=type_args,
+                type_args=outer.initial_type_args,
                 format_name=outer.format_name,
                 encoder=outer.encoder,
             )
